@@ -1069,6 +1069,13 @@ func (fc *FuncCtx) modOfInstr(fr *Frame, ins ssa.Instruction, cells map[*ssa.All
 		if c != nil && cells != nil {
 			cells[c] = true
 		}
+		if fv, ok := x.Addr.(*ssa.FreeVar); ok && fr != nil {
+			// a function literal inlined into its caller: the captured variable is a cell of an enclosing frame
+			// (added to `cells` below), not the one-element heap "FV:..." used when the literal is verified on its own
+			if lv := fr.regs[fv]; lv.LV != nil && lv.LV.Kind == lvCell {
+				h = ""
+			}
+		}
 		if h != "" {
 			mi.heaps[h] = true
 		}
